@@ -1,4 +1,4 @@
-import Mqtt5V.Proofs.Trace
+import Mqtt5V.Proofs.TraceTruth
 import Mqtt5V.Proofs.PubSend
 import Mqtt5V.Proofs.Sender
 import Mqtt5V.Proofs.Replies
@@ -112,6 +112,16 @@ theorem composed_complete_at_most_once (tr a b c : List Trace.Ev) (d1 d2 : Trace
 
 example : Trace.accepts [.init 1 .pub1 1, .connUp none, .wr, .pk (.publish 1 1 7 false 3), .wrOk, .rx ⟨.puback, 7, [0], 0, true⟩,
     .rx ⟨.puback, 7, [0], 0, true⟩, .doneOk 1 [0] 0, .doneOk 1 [0] 0] = false := by decide
+
+/-- **C05 (drain) end to end**: `quiescent` stands for "cancel() was called or async_disconnect finished, and the execution context has run
+out of work" (the harness reports `ioc.stopped()` after a full drain). In every accepted history every operation initiated before that
+point — publish, subscribe, unsubscribe, async_run, async_receive, async_disconnect — has completed; with the theorem above: exactly once -/
+theorem composed_all_completed_at_quiescence (pre post : List Trace.Ev) (op : Nat) (k : Trace.Kind) (n : Nat)
+    (hacc : Trace.accepts (pre ++ Trace.Ev.quiescent :: post) = true) (hi : Trace.Ev.init op k n ∈ pre) : Trace.doneIn pre op :=
+  Mqtt5V.Proofs.Trace.all_completed_at_quiescence hacc hi
+
+example : Trace.accepts [.init 1 .pub1 1, .init 2 .other 1, .connUp none, .wr, .pk (.publish 1 1 7 false 3), .wrFail, .doneOther 1, .doneOther 2, .quiescent] = true := by decide
+example : Trace.accepts [.init 1 .pub1 1, .init 2 .other 1, .connUp none, .wr, .pk (.publish 1 1 7 false 3), .wrFail, .doneOther 1, .quiescent] = false := by decide
 
 end ComposedModel
 
